@@ -85,6 +85,10 @@ def render_ini(d, section, style):
     tgt = {"Pair": "LAMMPS", "EAM-Embed": "setfl", "EAM-Density": "setfl", "EAM-Density-FS": "setfl_fs", "EAM-ADP-Dipole": "eam_adp"}[section]
     lines = ["[Tabulation]", "target%s%s" % (delim, tgt), "nr%s5" % delim, "cutoff%s4.0" % delim, "nrho%s5" % delim, "cutoff_rho%s4.0" % delim, ""]
     pf = ["[Potential-Form]", "pf(r, a, b, c) = a + b*r + c*r^2" if style % 2 == 0 else "pf( r,a , b,c ) : a + b*r + c*r^2", ""]
+    if style >= 12:
+        # the same formula as two statements of the expression language, with blanks (or a line break) around the ';' that
+        # separates them: whitespace is not part of a formula
+        pf[1] = "pf(r, a, b, c) = var q := a + b*r ; q + c*r^2" if style % 2 == 0 else "pf( r,a , b,c ) : var q := a + b*r ;\n      q + c*r^2"
     pair = ["Al-Al%s%s" % (delim, val if section == "Pair" else other), "Al-Cu%s%s" % (delim, other)]
     if style % 4 >= 2:
         pair.reverse()
@@ -187,7 +191,7 @@ def _one(idx):
     d = case["tree"]
     out = dict(idx=idx, bad=[], n=0)
     try:
-        style = idx % 12
+        style = idx % 24
         section = SECTIONS[idx % len(SECTIONS)] if _MODE == "C09" else "Pair"
         text = render_ini(d, section, style)
         out["ini"] = None
@@ -341,6 +345,8 @@ def fe_render(case, style):
     prog = case["prog"]
     n = len(prog)
     forms = ["f%d(r, a) = %s" % (i + 1, fe_expr(prog[i], i + 1, n, style % 3)) for i in range(n)]
+    if style >= 6:       # each formula as two statements, blanks around the separating ';'
+        forms = ["%s = var q%d := (%s) ; q%d" % (f.split(" = ", 1)[0], i, f.split(" = ", 1)[1], i) for i, f in enumerate(forms)]
     if "\"h2\"" in json.dumps(prog):
         forms.append("h2(x, y) = x*100 + y")
     if style % 2:
@@ -368,7 +374,7 @@ def _fe_one(idx):
     case = _FCASES[idx]
     out = dict(idx=idx, bad=[], n=0)
     try:
-        style = idx % 6
+        style = idx % 12
         if case.get("cyclic"):
             style = 0 if style % 2 == 0 else 3      # operators as written (which sums are function calls is part of the program)
         text, keys = fe_render(case, style)
